@@ -10,6 +10,7 @@ import (
 	"github.com/ava-labs/avalanchego/database"
 	"github.com/ava-labs/avalanchego/utils/maybe"
 
+	"github.com/ava-labs/hypersdk/internal/verifhook"
 	"github.com/ava-labs/hypersdk/keys"
 	"github.com/ava-labs/hypersdk/state"
 )
@@ -305,6 +306,7 @@ func (ts *TStateView) PendingChanges() int {
 
 // Commit adds all pending changes to the parent view.
 func (ts *TStateView) Commit() {
+	verifhook.AwaitLock("tstate.Commit", 0, &ts.ts.l)
 	ts.ts.l.Lock()
 	defer ts.ts.l.Unlock()
 
